@@ -179,9 +179,9 @@ def random_smiles(mol, rng, k):
 
 
 def p_block(ref, m_unit, n):
-    hi = ref.cdf_int(n * m_unit) if ref.family == "schulz_zimm" else ref.cdf(n * m_unit)
-    lo = (ref.cdf_int((n - 1) * m_unit) if ref.family == "schulz_zimm" else ref.cdf((n - 1) * m_unit)) if n > 1 else (
-        ref.cdf_int(0) if ref.family == "schulz_zimm" else ref.cdf(0.0))
+    hi = ref.cdf_int_raw(n * m_unit) if ref.family == "schulz_zimm" else ref.cdf(n * m_unit)
+    lo = (ref.cdf_int_raw((n - 1) * m_unit) if ref.family == "schulz_zimm" else ref.cdf((n - 1) * m_unit)) if n > 1 else (
+        ref.cdf_int_raw(0) if ref.family == "schulz_zimm" else ref.cdf(0.0))
     return max(0.0, hi - lo)
 
 
@@ -207,13 +207,16 @@ def check(acc, m: Mol, seed):
             return
     rng = np.random.default_rng(seed)
     nmax = []
+    cap = 16 if len(refs) == 1 else (9 if len(refs) == 2 else 5)
     for r, mu in zip(refs, mus):
         n = 1
         cut = 1e-9 if len(refs) == 1 else 1e-6
-        while n < 40 and 1 - (r.cdf_int(n * mu) if r.family == "schulz_zimm" else r.cdf(n * mu)) > cut:
+        # broad laws (schulz_zimm, flory_schulz, log_normal) have long tails: the lengths are capped, the mass beyond the cap is
+        # accounted for (total_ref below is the mass of the enumerated lengths, not 1)
+        while n < cap and 1 - (r.cdf_int(n * mu) if r.family == "schulz_zimm" else r.cdf(n * mu)) > cut:
             n += 1
         nmax.append(n)
-    if max(nmax) > 10 or (len(nmax) >= 2 and int(np.prod(nmax)) > 100):
+    if int(np.prod(nmax)) > 130:
         acc.count("too_many_lengths_dropped")
         return
     end_start = stochs[0].left.symbol == "" and not isinstance(m.elements[0], Tok)
@@ -226,7 +229,7 @@ def check(acc, m: Mol, seed):
     tol_abs = 1e-7
     # Schulz-Zimm: the library sums the documented density over the integers without normalising; the reference (cdf_int) is
     # the same sum normalised - they differ by at most the discretisation error of the total, computed from the documented law
-    delta = sum(2.0 * abs(1.0 - r.int_total()) + 1e-9 for r in refs if r.family == "schulz_zimm")
+    delta = sum(1e-9 for r in refs if r.family == "schulz_zimm")  # the reference is the documented density summed over the integers, un-normalised like the library's
     worst = None
     # reference law over *molecules*: a molecule's probability is the sum over all unit-count tuples that build it
     groups = {}
@@ -245,7 +248,8 @@ def check(acc, m: Mol, seed):
         g[2].append(lengths)
     total_ref = sum(g[0] for g in groups.values())  # 1 - (tails beyond the enumerated lengths)
     # with equal units in neighbouring blocks a molecule also arises from splits beyond the enumerated lengths: at most the tails
-    trunc = sum(1 - (r.cdf_int(n * mu) if r.family == "schulz_zimm" else r.cdf(n * mu)) for r, mu, n in zip(refs, mus, nmax)) if len(refs) > 1 else 0.0
+    same_unit = any(a.repeat[0].text_ext == b.repeat[0].text_ext for a, b in zip(stochs, stochs[1:]))
+    trunc = sum(1 - (r.cdf_int(n * mu) if r.family == "schulz_zimm" else r.cdf(n * mu)) for r, mu, n in zip(refs, mus, nmax)) if same_unit else 0.0
     if any(len(g[2]) > 1 for g in groups.values()):
         acc.label("molecule_with_several_splits")
     for key, (p_ref, mol, tuples) in groups.items():
@@ -286,7 +290,7 @@ def check(acc, m: Mol, seed):
             over = naut > 1 and naut % k_over == 0
         acc.violation("probability", f"{text!r}: chain with {tuples if len(tuples) > 1 else lengths} units ({smi}) has ensemble probability {got:.9g}, generation probability is {p_ref:.9g}",
                       {**case0, "lengths": list(lengths)}, {**sig0, "double_counted": bool(abs(got - 2 * p_ref) <= 2 * (tol_abs + 1e-6 * p_ref + delta + trunc)), "overcount_by_symmetry": bool(over)}, size=len(text))
-    elif abs(total - total_ref) > 1e-6 + 10 * delta + 1e-8 * len(nmax):
+    elif abs(total - total_ref) > 1e-6 + 10 * delta + 1e-8 * len(nmax) + trunc:
         acc.violation("sums_to_one", f"{text!r}: probabilities over all chain lengths (reference mass {total_ref:.9g}) sum to {total:.9g}", case0,
                       {**sig0, "double_counted": bool(abs(total - 2.0) < 1e-5 + 20 * delta)}, size=len(text))
     # foreign molecules: a whole block without any repeat unit (generation always adds at least one)
